@@ -107,3 +107,10 @@ package adjRIBIn
 //@   nosafety
 //@   acquires 80
 //@   locks C25
+
+// validatePath consults the VRF's reference counters (innermost locks).
+//@ contract (*AdjRIBIn).validatePath, (*AdjRIBIn).ourASNsInPath
+//@   props C25
+//@   nosafety
+//@   acquires 96
+//@   locks C25
